@@ -463,6 +463,7 @@ impl<'tcx> D<'tcx> {
             for p in &gg.own_params {
                 gs.push(J::O(vec![
                     ("name", s(p.name)),
+                    ("index", J::I(p.index as i128)),
                     ("kind", s(match p.kind {
                         ty::GenericParamDefKind::Lifetime => "lifetime",
                         ty::GenericParamDefKind::Type { .. } => "type",
